@@ -200,7 +200,8 @@ def run_pair(path=None, rep=None, strict=False):
     raised = None
     try:
         try:
-            pl.play(rep.decrypted_data, strict)
+            with common.time_limit(max(120.0, len(rep.decrypted_data) / 5000.0)): pl.play(rep.decrypted_data, strict)
+        except common.HangError: raised = 'HANG'
         except Exception as e:
             raised = impl.err_name(e)
         lib = list(rec.trace)
